@@ -1,6 +1,7 @@
 package props
 
 import (
+	"encoding/base64"
 	"encoding/json"
 	"fmt"
 	"reflect"
@@ -117,7 +118,14 @@ func renderJSON(h *wire.Hello) (doc []byte, ok bool, why string) {
 	exts := []map[string]any{}
 	for _, e := range h.Exts {
 		if wire.IsGREASE(e.Type) {
-			exts = append(exts, map[string]any{"name": "GREASE"})
+			g := map[string]any{"name": "GREASE"}
+			if len(e.Body) > 0 {
+				// a GREASE extension with a body: the body is a parameter of the fingerprint
+				g["id"] = int(e.Type)
+				g["data"] = base64.StdEncoding.EncodeToString(e.Body)
+				g["keep_data"] = true
+			}
+			exts = append(exts, g)
 			continue
 		}
 		nm, okn := dicttls.DictExtTypeValueIndexed[e.Type]
